@@ -3,8 +3,11 @@ Histories of the seven synchronisation notifications (text document open/change/
 open/change/close, workspace folders) are sent as real JSON-RPC notifications (structure_message +
 handle_message, a share of them as Content-Length frames through run_async / run) into a real
 LanguageServer; after EVERY message the public workspace API is snapshotted and canonicalised
-(sorted by URI) and compared with the extracted model (Model/Workspace.v) and, for well-formed
-histories, with the extracted reference fold (Spec/WorkspaceSpec.v).  URIs that are not open are
+(sorted by URI) and compared with the extracted model (Model/Workspace.v) and with the extracted
+reference fold (Spec/WorkspaceSpec.v), which is total: histories with changes / closes for documents
+and notebooks that are not open are judged by it too (they change nothing and are reported); only
+histories with a duplicated cell document or one of the two order-dependent notifications of
+DESIGN section 6 row 25 are compared with the model alone.  URIs that are not open are
 backed by files on disk so that the disk fallback of get_text_document is observable.  The
 "notebook stored on open is an independent copy" clause is decided here only: a user handler
 mutates the params object of every notebookDocument/didOpen before the snapshot is taken."""
@@ -825,10 +828,10 @@ class C10(core.Property):
     modules = ["Proofs.WorkspaceProofs", "Props.C10"]
     obligations = ["op_refines_did_open", "op_refines_did_change", "op_refines_did_close", "op_refines_nb_open",
                    "op_refines_nb_change", "op_refines_nb_close", "op_refines_folders", "init_refines", "op_refines",
-                   "fold_refines", "wf_prefix", "data_splice_commute", "folders_interleaved", "R_text_content",
-                   "index_consistent", "wf_no_error", "closed_absent", "get_after_close_is_disk",
+                   "fold_refines", "wf_prefix", "data_splice_commute", "folders_interleaved", "R_text_entries", "text_entries_frame",
+                   "index_consistent", "open_targets_no_error", "change_never_opens", "closed_absent", "get_after_close_is_disk",
                    "closed_cell_absent", "did_change_selects", "session_is_doc_run",
-                   "C10", "C10_prefix", "C10_public_api", "C10_closed", "C10_index", "C10_text_is_C04",
+                   "C10", "C10_prefix", "C10_public_api", "C10_closed", "C10_not_open", "C10_index", "C10_text_is_C04",
                    "C10_order_open_cell_data", "C10_order_open_folders", "C10_unopened",
                    "C10_empty_metadata_replaces", "C10_nonvacuous"]
     coq_targets = ["Props/C10.vo", "Extract/ExtractC10.vo"]
